@@ -499,6 +499,30 @@ fn gen_op(rng: &mut Rng, i: usize, knobs: &Knobs, weights: &[u64; 6]) -> Op {
     }
 }
 
+/// Run indices below 9330 enumerate all kind sequences of length 1..5 over
+/// {Add, Panic, Sleep beyond the limit, AllocBeyond, Exit, Large}.
+pub const SYSTEMATIC_RUNS: u64 = 6 + 36 + 216 + 1296 + 7776;
+
+fn systematic_kinds(index: u64) -> Option<Vec<usize>> {
+    let mut i = index;
+    let mut len = 1usize;
+    let mut block = 6u64;
+    while len <= 5 {
+        if i < block {
+            let mut v = Vec::new();
+            for _ in 0..len {
+                v.push((i % 6) as usize);
+                i /= 6;
+            }
+            return Some(v);
+        }
+        i -= block;
+        block *= 6;
+        len += 1;
+    }
+    None
+}
+
 fn gen_gap(rng: &mut Rng, knobs: &Knobs) -> u64 {
     let t = knobs.timeout_ns;
     *rng.pick(&[0, 0, 1_000, 1_000_000, t / 2, t * 2])
@@ -524,7 +548,7 @@ impl Harness for C18 {
         }
     }
 
-    fn generate(&self, rng: &mut Rng, tier: Tier, _index: u64) -> Scenario {
+    fn generate(&self, rng: &mut Rng, tier: Tier, index: u64) -> Scenario {
         // Swarm: each run draws its own knobs and its own op-kind weights.
         let timeout_ns = *rng.pick(&TIMEOUTS_NS);
         let mut knobs = Knobs::default_for(timeout_ns);
@@ -560,10 +584,30 @@ impl Harness for C18 {
                 }
             }
         };
-        let n = 1 + rng.below(max_len) as usize;
+        // Coverage floor: the first 9330 run indices of every batch are the 6 + 6^2 +
+        // ... + 6^5 sequences of request *kinds* of length 1..5, one run each (every
+        // fault kind in every position); gaps, knobs and the schedule are seeded as
+        // for any other run. All later indices are fully random.
+        let systematic = systematic_kinds(index);
+        let n = match &systematic {
+            Some(k) => k.len(),
+            None => 1 + rng.below(max_len) as usize,
+        };
         let mut requests = Vec::new();
         for i in 0..n {
-            let op = gen_op(rng, i, &knobs, &weights);
+            let op = match &systematic {
+                Some(kinds) => {
+                    let mut only = [0u64; 6];
+                    only[kinds[i]] = 1;
+                    let op = gen_op(rng, i, &knobs, &only);
+                    // the overrun kind must overrun
+                    match (kinds[i], op) {
+                        (2, Op::Sleep(ns)) if ns < knobs.timeout_ns => Op::Sleep(knobs.timeout_ns * 2),
+                        (_, op) => op,
+                    }
+                }
+                None => gen_op(rng, i, &knobs, &weights),
+            };
             requests.push(Req {
                 gap_ns: gen_gap(rng, &knobs),
                 op,
@@ -576,7 +620,7 @@ impl Harness for C18 {
         });
         // The fault-injecting sub-batch (every fourth run) adds kinds outside
         // the property's request alphabet, each with its own narrow relaxation.
-        if rng.chance(1, 4) {
+        if systematic.is_none() && rng.chance(1, 4) {
             let at = rng.below(requests.len() as u64) as usize;
             knobs.extra.push(Extra::CtrlC {
                 at,
@@ -866,7 +910,7 @@ impl Harness for C18 {
 
     fn label(&self, sc: &Scenario) -> String {
         if sc.knobs.extra.is_empty() {
-            "alphabet-only".into()
+            "alphabet-only (the first 9330 run indices enumerate all kind sequences of length 1..5)".into()
         } else {
             "with-extra-faults(ctrl-c)".into()
         }
@@ -875,7 +919,8 @@ impl Harness for C18 {
     fn rule(&self) -> String {
         "One evaluation = one simulated run of the real parent.rs/child.rs/frame.rs: a seeded request sequence \
          (1..5 requests, thorough also up to 10, over Add/Panic/Sleep(below or beyond the limit)/AllocBeyond/Exit/Large, \
-         plus a trailing sentinel Add) with seeded gaps, pipe capacity, short I/O rate, kill-on-dead-child result, \
+         plus a trailing sentinel Add; the first 9330 run indices of a batch enumerate every sequence of kinds of length 1..5 once, \
+         all later ones are random) with seeded gaps, pipe capacity, partial-write rate, kill-on-dead-child result, \
          scheduling policy, and a seeded schedule of {client task, run_task, child threads, timers} at seam granularity. \
          A run is non-trivial when its sequence contains at least one failing request kind, or an extra fault was \
          injected, or at least one scheduling/IO decision differed from the default; distinct = distinct 64-bit digest \
